@@ -223,6 +223,14 @@ pub fn run(ctx: &Ctx) -> i32 {
     let mut acc = Acc::new(ctx);
     let wl = Positions::new(ctx.quick());
     acc.pool(&wl, "c16", false);
+    // language-server sessions (edit histories of C15's workload): every error the library locates must be
+    // published for the document of its module with exactly the range of its span in the client's text
+    let hs = super::c15::Histories {
+        n: if ctx.quick() { 400 } else { 8000 },
+        max_steps: if ctx.quick() { 25 } else { 60 },
+        located_only: Some("C16"),
+    };
+    acc.pool(&hs, "c15loc-c16", true);
     // Canary: the reference must disagree with a deliberately wrong conversion (UTF-8 length for UTF-16 length).
     let m = Model::new("é\na");
     let canary_ok = m.to_position(3) == (1, 0) && m.to_offset(0, 5) == Some(2) && m.to_offset(7, 0) == Some(4);
